@@ -6,6 +6,26 @@ sys.path.insert(0, os.path.dirname(os.path.dirname(os.path.abspath(__file__))))
 from vp import core  # noqa: E402
 
 
+def changed_files(prop):
+    """files of this property (corpus/fingerprints.json, written by tools/pin_fingerprints.py) whose AST differs"""
+    import ast, hashlib, json
+    try:
+        pin = json.load(open(os.path.join(core.VERIF, "corpus", "fingerprints.json")))
+    except (OSError, ValueError):
+        return []
+    if pin.get("python") != "%d.%d" % sys.version_info[:2]:
+        return []                      # ast.dump differs between Python versions: the pins say nothing here
+    out = []
+    for f in pin["by_property"].get(prop, []):
+        try:
+            h = hashlib.sha256(ast.dump(ast.parse(open(os.path.join(core.REPO, f)).read())).encode()).hexdigest()[:16]
+        except (OSError, SyntaxError) as e:
+            h = "unreadable:%s" % type(e).__name__
+        if h != pin["files"].get(f):
+            out.append(f)
+    return out
+
+
 def main():
     if len(sys.argv) < 3:
         print("usage: check <Cxx> quick|thorough [--replay file]")
@@ -16,8 +36,16 @@ def main():
     replay = None
     if "--replay" in sys.argv:
         replay = sys.argv[sys.argv.index("--replay") + 1]
-    os.environ["VERIF_CURRENT_TIER"] = tier
     core.ensure_env()
+    changed = changed_files(prop) if tier == "quick" and not os.environ.get("VERIF_NO_ESCALATE") else []
+    if changed:
+        # the code the model was reviewed against has been edited: re-establish the correspondence on the thorough
+        # tier's sample (no verdict is derived from the fingerprints themselves)
+        print("NOTE: %s differ(s) from corpus/fingerprints.json -- quick check of %s escalated to the thorough case counts"
+              % (", ".join(changed[:4]) + (" ..." if len(changed) > 4 else ""), prop))
+        os.environ["VERIF_ESCALATED"] = ",".join(changed)
+        tier = "thorough"
+    os.environ["VERIF_CURRENT_TIER"] = tier
     seed = int(os.environ.get("VERIF_SEED", "20260926"))
     mod = importlib.import_module("vp.props.%s" % prop.lower())
     # safety net: a check must terminate.  Hangs of the code under test are caught per call (SIGALRM in the
